@@ -33,7 +33,9 @@ def build_cases(tier, seed):
         opts = {}
         if i % 8 in (2, 6):
             prof["fleets"] = [2, 3][(i // 8) % 2]
-            opts = {"cosim_ops": {"every": 2, "kinds": ["change_request_membership"]}}
+            # i % 8 == 6: the operator also moves vehicles between fleets while they are on their way (the pick-up is then
+            # refused on arrival, every step: the vehicle keeps travelling to the request and the request keeps its record)
+            opts = {"cosim_ops": {"every": 2, "kinds": ["change_request_membership"] if i % 8 == 2 else ["change_request_membership", "change_membership", "change_membership"], "prefer_en_route": True}}
         if i % 4 == 0:
             # a co-simulation client adds requests of no fleet between calls (built-in control: "at most one vehicle per request")
             prof["fleets"] = [2, 3][(i // 4) % 2]
@@ -52,8 +54,8 @@ main = main_with_sys(
     build_cases,
     "c17_assigned_requests",
     {
-        "quick": {"c17_assigned_requests": 3000, "c17_interrupted_dispatches": 200, "c17_out_of_energy_en_route": 10, "sys_transitions": 20000, "cosim_change_membership_of_assigned_request": 10, "cosim_waiting_request_opened_to_second_fleet": 50, "c17_refused_instructions_en_route": 50},
-        "thorough": {"c17_assigned_requests": 60000, "c17_interrupted_dispatches": 4000, "c17_out_of_energy_en_route": 200, "sys_transitions": 500000, "cosim_change_membership_of_assigned_request": 100, "cosim_waiting_request_opened_to_second_fleet": 500, "c17_refused_instructions_en_route": 500},
+        "quick": {"c17_assigned_requests": 3000, "c17_interrupted_dispatches": 200, "c17_out_of_energy_en_route": 10, "sys_transitions": 20000, "cosim_change_membership_of_assigned_request": 10, "cosim_waiting_request_opened_to_second_fleet": 50, "cosim_vehicle_en_route_moved_out_of_the_requests_fleet": 20, "c17_refused_instructions_en_route": 50},
+        "thorough": {"c17_assigned_requests": 60000, "c17_interrupted_dispatches": 4000, "c17_out_of_energy_en_route": 200, "sys_transitions": 500000, "cosim_change_membership_of_assigned_request": 100, "cosim_waiting_request_opened_to_second_fleet": 500, "cosim_vehicle_en_route_moved_out_of_the_requests_fleet": 200, "c17_refused_instructions_en_route": 500},
     },
     "journeys started with too little energy (matching thresholds lowered so the built-in dispatcher sends nearly empty vehicles), hostile re-dispatch / interruption / OutOfService instructions, cancellations while en route, interruption-only generators whose (mostly refused) instructions reach vehicles en route, a co-simulation client opening assigned requests to further fleets between calls; "
     "in every state each waiting request that records a vehicle must find it in DispatchTrip to that request (and under built-in control at most one vehicle per request); the systematic driver adds every instruction variant "
